@@ -38,6 +38,8 @@ const char* kHostileHeaders[] = {
     "Date: garbage", "Date: Sun, 99 Xxx 99999 99:99:99 GMT", "Expect: ", "Expect: 100-continue", "Connection: ", "Connection: upgrade, , ",
     "Content-Encoding: ", "Content-Encoding: zzz", "Accept-Encoding: gzip;q=", "Access-Control-Allow-Origin: ", "User-Agent: ", "Server: \r",
     "Location: ", "Allow: GET,,,", "X: ", ": value", "NoColonHere", " leading-space: x", "A\tB: c",
+    "Set-Cookie: a=b; Max-Age=999999999999999999999", "Set-Cookie: a=b; Max-Age=2147483648", "Set-Cookie: a=b; Expires=garbage", "Set-Cookie: a=b; Path", "Set-Cookie: =; ;",
+    "Set-Cookie: a=b; Max-Age=-1", "Set-Cookie: a=b; Domain=", "Set-Cookie: a", "Cookie: a=b; Max-Age=99999999999",
 };
 
 std::string hostile_message(sim::Rng& rng, size_t max_size)
